@@ -461,7 +461,7 @@ def path_expand(path, path_template=None, level_offset=None, account_id=0, cosig
     return npath
 
 
-def bip38_decrypt(encrypted_privkey, password):
+def bip38_decrypt(encrypted_privkey, password, network=DEFAULT_NETWORK):
     """
     BIP0038 non-ec-multiply decryption. Returns WIF private key.
     Based on code from https://github.com/nomorecoin/python-bip38-testing
@@ -471,6 +471,8 @@ def bip38_decrypt(encrypted_privkey, password):
     :type encrypted_privkey: str
     :param password: Required password for decryption
     :type password: str
+    :param network: Network the key was created for: an EC-multiplied key commits to its address on that network
+    :type network: str
 
     :return tuple (bytes, bytes, boolean, dict): (Private Key bytes, 4 byte address hash for verification, compressed?, dictionary with additional info)
     """
@@ -532,7 +534,7 @@ def bip38_decrypt(encrypted_privkey, password):
             public_key: str = private_key.public_compressed_hex
             compressed = True
 
-        address = private_key.address(compressed=compressed)
+        address = Key(private_key.private_byte, network=network, compressed=compressed).address()
         address_hash_check = double_sha256(bytes(address, 'utf8'))[:4]
         if address_hash_check != address_hash:
             raise ValueError("Address hash has invalid checksum")
@@ -1444,7 +1446,7 @@ class Key(object):
 
         :return str: Private Key WIF
         """
-        priv, addresshash, compressed, _ = bip38_decrypt(encrypted_privkey, password)
+        priv, addresshash, compressed, _ = bip38_decrypt(encrypted_privkey, password, network)
 
         # Verify addresshash
         k = Key(priv, compressed=compressed, network=network)
@@ -1998,7 +2000,7 @@ class HDKey(Key):
 
         :return str: Private Key WIF
         """
-        priv, addresshash, compressed, _ = bip38_decrypt(encrypted_privkey, password)
+        priv, addresshash, compressed, _ = bip38_decrypt(encrypted_privkey, password, network)
         # compressed = True if priv[-1:] == b'\1' else False
 
         # Verify addresshash
